@@ -15,6 +15,7 @@ RULE = ("case = (data family exact-Kruskal (4 holders) / noisy-dense (dense+spar
 ANCHORS = ["tensor:tensor.nvecs", "sptensor:sptensor.nvecs", "ktensor:ktensor.nvecs", "ttensor:ttensor.nvecs"]
 EXHAUSTIVE = {"quick": {"(n, r) pairs for every generated shape": "complete"}, "thorough": {"(n, r) pairs for every generated shape": "complete"}}
 NPINT_ARGS = True     # a quarter of the cases pass their integer arguments as NumPy integers (core.Ctx.begin)
+STRIDED_ARGS = True   # a quarter of the cases pass every array argument as a strided, non-contiguous view (core.Ctx.begin)
 WATCHDOG = {"quick": 600, "thorough": 3000}
 
 
